@@ -341,14 +341,14 @@ def r01d(ck, fb):
             ck.require(early and bypass, 'R01d', 'load_snapshot:direct-load_log-is-early-return', s.where(),
                        'load_log is started directly in load_snapshot on a path that also starts the snapshot future')
         conts = [x for x in fb.tree(SA + 'load_snapshot')[1:] if x.calls(re.escape(SA + 'load_log') + '$')]
-        ck.require(len(conts) == 1, 'R01d', 'load_snapshot:continuation-calls-load_log', ls.where(), 'no continuation of the snapshot future starts load_log')
+        ck.require(len(conts) >= 1, 'R01d', 'load_snapshot:continuation-calls-load_log', ls.where(), 'no continuation of the snapshot future starts load_log')
         futs = [x for x in fb.tree(SA + 'load_snapshot')[1:] if x.calls(r'StateApplyManager::do_load_snapshot$')]
-        ck.require(len(futs) == 1, 'R01d', 'load_snapshot:loads', ls.where(), 'the snapshot future does not call do_load_snapshot')
+        ck.require(len(futs) >= 1, 'R01d', 'load_snapshot:loads', ls.where(), 'the snapshot future does not call do_load_snapshot')
     ll = ck.body(SA + 'load_log', 'R01d')
     if ll:
         inner = [x for x in fb.tree(SA + 'load_log')]
         sd = [(x, s, a) for x in inner for (s, m, v, a) in util.sends(x, r'RaftLogManagerAsyncRequest$', 'Load')]
-        ck.require(len(sd) == 1, 'R01d', 'load_log:Load', ll.where(), 'replay request not sent')
+        ck.require(len(sd) >= 1, 'R01d', 'load_log:Load', ll.where(), 'replay request not sent')
         # start/end values computed in the outer fn: start <- snapshot_next_index, end <- last_applied_log + 1
         t1 = Taint(ll, place_src=field_place_src('snapshot_next_index'))
         t2 = Taint(ll, place_src=field_place_src('last_applied_log'))
